@@ -131,6 +131,8 @@ RULE = ("one run = one generated configuration (1-5 scripted init probes / Input
         "(restore path, persistent Counter, catching relay)'; non-trivial = in some "
         "permutation an init_async routine ran, or an event from another block was delivered "
         "during the start-up, or the start-up failed; "
+        "a third of the ValuePoll/InitAsync initdef values are falsy (0, False, '', 0.0), a fifth "
+        "of the FuncBlocks have constants only or no inputs; "
         "distinct = hash of (block kinds, per block routine/outcome sequence, handler records, "
         "async outcomes, waiter outcomes, verdict) of every permutation, times and values removed")
 REACH_EXPECTED = [
